@@ -26,6 +26,9 @@ TABLES = [
     # supersets of tables 3 and 4: every old entry kept, keys ADDED for atom types served by '?' before
     {'?': 4, 'Si': 2, 'Mg': 1, 'Fe': 6, 'C': 3, 'N': 5, 'S': 2, 'I': 3, 'H': 2, 'B': 1},
     {'?': 0, 'C': 4, 'H': 1, 'N': 3, 'O': 2, 'Si': 4, 'F': 1, 'P': 5, 'Fe': 3},
+    # one below the usual valence of the common ring atoms (aromatic atoms exactly one over their capacity)
+    {'?': 3, 'C': 3, 'N': 2, 'O': 1, 'S': 1, 'N+1': 3, 'F': 1, 'Cl': 1},
+    {'?': 4, 'C': 4, 'N': 2, 'O': 2, 'S': 2, 'N+1': 4},
 ]
 
 
@@ -35,7 +38,18 @@ def expected(smiles, tab):
     m = R.read_smiles(smiles)
     over = []
     for i, a in enumerate(m.atoms):
-        used = R.bond_order_sum(m, i) + (a.hcount or 0)
+        arom = [j for j in m.adjacent(i) if m.order(i, j) == 1.5]
+        if arom:
+            # aromatic input: every Kekule structure gives an atom its sigma bonds plus one double bond if (and only
+            # if) it needs a pi bond - decided by the independent rule for the standard atom kinds, else not judged
+            from harness.enc import _needs_pi
+            need = _needs_pi(m, i)
+            if need is None:
+                return m, None
+            used = sum(1 if m.order(i, j) == 1.5 else m.order(i, j) for j in m.adjacent(i)) + (1 if need else 0)
+            used += (a.hcount or 0)
+        else:
+            used = R.bond_order_sum(m, i) + (a.hcount or 0)
         if used > capacity(tab, a.element, a.charge, 0):
             over.append((i, a.token, used))
     return m, over
@@ -46,6 +60,11 @@ def check(smiles, tab, tname):
     from spec import smiles_reader as R
     out = []
     m, over = expected(smiles, tab)
+    if over is None:
+        return [], None
+    from harness.enc import kekulizable
+    if any(m.order(i, j) == 1.5 for i in range(len(m.atoms)) for j in m.adjacent(i)) and kekulizable(m) is not True:
+        return [], None         # the verdict is about the table only for molecules that have a Kekule structure
     try:
         sel = sf.encoder(smiles, strict=True)
         raised = False
@@ -144,7 +163,16 @@ def molecules(tier):
         fam.append('[%s](#C)#C' % el)
         fam.append('[13%sH2](=O)C' % el)
     kek = [s for s in enc.corpus() if not any(c in s for c in 'cnos') and '[se]' not in s]
-    return base + fam + (kek[::12] if tier == 'quick' else kek)
+    # aromatic molecules of the standard atom kinds (lower-case and upper-case-with-colon spellings): the strict verdict
+    # must count the bonds of the kekulized molecule, whichever atom carries the ring digits
+    arom = ['c1ccccc1', 'Cc1ccccc1', 'c1cc(C)ccc1', 'c1ccccc1C', 'c1(C)ccccc1', 'CC(C)c1ccccc1', 'c1ccncc1', 'n1ccccc1',
+            'c1ccccn1', 'O=n1ccccc1', 'c1cc[nH]c1', '[nH]1cccc1', 'c1ccoc1', 'o1cccc1', 'c1ccsc1', 's1cccc1', 'Cn1cccc1',
+            'C[n+]1ccccc1', 'c1cc[n+](C)cc1', 'c1ccc2ccccc2c1', 'c12ccccc1cccc2', 'c1ccc(cc1)-c1ccccc1', 'Oc1ccccc1O',
+            'Clc1ccccc1Cl', 'c1ccccc1N(C)C', 'O1:C:C:C:C:1', '[NH]1:C:C:C:C:1', 'C1:C:C:C2:C:C:C:C:C:2:C:1', 'S1:C:C:C:C:1',
+            'C1:C:C:C:C:C:1', 'N1:C:C:C:C:C:1', 'C:1:C:C:C:C:C1C', 'c1ccc2[nH]ccc2c1', 'c1cnc2ccccc2n1', 'Cc1cc(C)cc(C)c1',
+            'c1ccccc1C(=O)O', 'c1ccc(cc1)[N+](=O)[O-]', 'Fc1c(F)c(F)c(F)c(F)c1F']
+    kar = [s for s in enc.corpus() if any(c in s for c in 'cn')]
+    return base + fam + arom + (kek[::12] if tier == 'quick' else kek) + (kar[::40] if tier == 'quick' else kar[::4])
 
 
 def floor(ctx):
@@ -161,7 +189,7 @@ def floor(ctx):
     return {'evaluations': sum(r[0] for r in res), 'distinct_nontrivial': sum(r[1] for r in res),
             'rule': 'non-aromatic special cases, a generated family (13 elements x 0..9 substituents x {plain, bracket, '
                     'H1-3, +, -, +2} plus multiple-bond and isotope forms) and kekule corpus molecules, each under all '
-                    '10 tables in a shuffled order with 3 tables revisited and two table -> super-table steps (table changes between calls); non-trivial = '
+                    '12 tables in a shuffled order with 3 tables revisited and two table -> super-table steps (table changes between calls); non-trivial = '
                     'distinct molecules', 'exhaustive': False,
             'samples': ['[CH3](C)(C)C', 'C[I-]', '[Fe+2](C)(C)C'], 'violations': [b for r in res for b in r[2]],
             'bounded_note': 'bounded; not counted as proved'}
